@@ -90,7 +90,7 @@ func runC10(ctx *core.Ctx) {
 	ctx.SetRule("case = (timeout, MAXOUTOFORDERNESS, 1-4 keys with per-key gap sequences just below/at/above the timeout and ≫, arrival pattern inorder|jitter|late, feed mode) from PRNG(seed,index), closed by a sentinel of a foreign key; " +
 		"in-order cases are additionally fed at 3 speeds and compared. non-trivial = some key has ≥2 sessions expected by the gap rule; distinct by (SQL, rows, feed) hash")
 	ctx.Assume("single producer; block strategy", "maximality of sessions is not demanded (the statement does not)")
-	n := ctx.N(60, 1500)
+	n := ctx.N(90, 3000)
 	ctx.Cases("c10", n, 4*workers(), func(i int, r *rand.Rand) {
 		execC10(ctx, genEvSession(core.CaseRef{Stream: "c10", Index: i}, r))
 	})
